@@ -104,9 +104,10 @@ func c14Exec(c *Sexp) (out Outcome) {
 		// every input must stay within the work budget when parsed alone (probed run), the concurrent
 		// runs below have no probes and therefore no budget
 		ci := c.Clone()
+		_, tgt := caseFiles(c)
 		for _, y := range ci.List {
 			if y.Head() == "files" {
-				y.List[1].List[1] = H(x.Bytes())
+				y.List[1+tgt].List[1] = H(x.Bytes()) // the PARSED file (it need not be the first of the set)
 			}
 		}
 		if o := runParseCase(ci, 3000, nil, nil); o.skip != "" {
